@@ -160,6 +160,11 @@ def run(ctx):
             samples.append(text[:300])
     impl, ys, model = corr_parse.eval_both(texts)
     diffs = [{"suite": "parse", "input_hex": t.hex(), "input": t.decode("latin-1")[:300], "impl": a[:300], "model": m[:300]} for t, a, m in zip(texts, impl, model) if a != m]
+    # render → parse → load of one generated filter with generated name / description / marker prefixes: real code against the
+    # composed Lean models (serializer, parser, loader `Readback.load`)
+    import corr_readback
+    rb_diffs, rb_n, rb_classes = corr_readback.run(rng("c11-roundtrip"), 1000 if ctx.tier == "quick" else 15000)
+    diffs += rb_diffs
     seen, uv = set(), []
     for v in viol:
         k = v["what"][:50]
@@ -168,7 +173,7 @@ def run(ctx):
             uv.append(v)
     fresh, known = split_known("C11", uv, lambda f, v: False)
     return {"evaluations": evals, "distinct_nontrivial": nontriv, "rule": RULE, "samples": samples,
-            "suites": {"factory": {"sets": n}}, "diffs": diffs, "violations": fresh, "known": known}
+            "suites": {"factory": {"sets": n}, "factory-roundtrip": {"definitions": rb_n, "outcomes": rb_classes}}, "diffs": diffs, "violations": fresh, "known": known}
 
 
 def replay(ctx, payload):
